@@ -38,7 +38,7 @@ META = {
   "technique": "runtime monitoring: invariant monitor (reservation exclusivity, idempotent repeats) over generated interleaved histories on real LMDB wallets and chain",
  },
  "C04": {
-  "text": "Runtime monitoring: at every validated refresh in generated histories the wallet's books are compared with the real chain's UTXO set, heights and coinbase flags (membership, balance partition for four confirmation settings, ledger equality, cross-account frame condition). Once per history the chain grows by more than 50 blocks while transactions are pending.",
+  "text": "Runtime monitoring: at every validated refresh in generated histories the wallet's books are compared with the real chain's UTXO set, heights and coinbase flags (membership, balance partition for four confirmation settings, ledger equality, cross-account frame condition). Once per history the chain grows by more than 50 blocks while transactions are pending. Histories include self-paid invoices, coinbases re-requested for a candidate's key while another account is active (a record must carry a key of the account it is kept under), and a second job (c04m) runs a new-seed wallet whose coinbases go to a non-active account and judges each account after its own refresh.",
   "design_ref": "DESIGN.md section 5 C04",
   "note": "Chain truth is read from grin_chain directly; histories that the statement excludes (cancel after broadcast, reorganisation) are not generated.",
   "technique": "runtime monitoring: chain-truth oracle evaluated at every successful refresh over generated histories",
@@ -56,25 +56,25 @@ META = {
   "technique": "runtime monitoring with fault injection: syscall-level crash/failing-write enumeration + recovery invariant oracle",
  },
  "C12": {
-  "text": "Runtime monitoring: nonce/excess freshness and cleartext-secret monitors ride on generated multi-slate histories of real wallets (raw on-disk bytes and every emitted message searched after every 40 steps); seed-file password semantics are checked against an independent decryptor; password change and phrase recovery are interrupted at every persistence call by the syscall interposer. M-secrets also has a public-data clause: no emitted slate's offset (or the change of the offset made by the wallet) may equal plus or minus a participant's blinding key, checked as (+/-)x*G == public_blind_excess; the workload repeats protocol steps and sends an invoice that reuses the slate id of one of the victim's pending sends.",
+  "text": "Runtime monitoring: nonce/excess freshness and cleartext-secret monitors ride on generated multi-slate histories of real wallets (raw on-disk bytes and every emitted message searched after every 40 steps); seed-file password semantics are checked against an independent decryptor; password change and phrase recovery are interrupted at every persistence call by the syscall interposer. M-secrets also has a public-data clause: no emitted slate's offset (or the change of the offset made by the wallet) may equal plus or minus a participant's blinding key, checked as (+/-)x*G == public_blind_excess; the workload repeats protocol steps, sends invoices that reuse the slate id of one of the victim's pending sends or of an invoice the victim issued itself, and pays its own invoices. The seed-file job also tries the right password followed by NUL bytes.",
   "design_ref": "DESIGN.md section 5 C12",
-  "note": "Known open finding: the stored context keeps initial_sec_key/initial_sec_nonce unmasked (see known_findings.json).",
+  "note": "Known open findings: the stored context keeps initial_sec_key/initial_sec_nonce unmasked; the seed file also opens with its password followed by NUL bytes (HMAC key padding) - see known_findings.json.",
   "technique": "runtime monitoring: byte-search and nonce-uniqueness monitors over histories + fault-injected seed-file operations with an independent decryptor",
  },
  "C17": {
-  "text": "Runtime monitoring of the real TTL checks: a directed sweep of cutoffs around the wallet's observed height at every protocol step and role, and of refreshes around the cutoff with other pending transactions present, judged by an expiry oracle stated as implications. The acting wallet's own ttl_blocks wish for its reply is varied (it must not matter for the incoming slate's expiry).",
+  "text": "Runtime monitoring of the real TTL checks: a directed sweep of cutoffs around the wallet's observed height at every protocol step and role, and of refreshes around the cutoff with other pending transactions present, judged by an expiry oracle stated as implications. The acting wallet's own ttl_blocks wish for its reply is varied (it must not matter for the incoming slate's expiry); roles include a self-send inside one account, and a refresh that fails while the node is reachable is itself judged.",
   "design_ref": "DESIGN.md section 5 C17",
   "note": "Directed boundary sweep (hundreds of cases), not random histories; other pending transactions are of the same wallet and role.",
   "technique": "runtime monitoring: boundary sweep with an expiry oracle over real receive/finalize/invoice/refresh executions",
  },
  "C05": {
-  "text": "Runtime monitoring with a before/after oracle on real wallets: every pending kind at every stage is cancelled in the presence of other reservations and the complete observable state is compared with the snapshot taken just before the transaction existed. Every third case places pending entries with the same per-account log ids into the wallet's other account (the compared view covers every account); refusal cases include a transaction that is already mined but not yet seen by the wallet (with and without change output).",
+  "text": "Runtime monitoring with a before/after oracle on real wallets: every pending kind at every stage is cancelled in the presence of other reservations and the complete observable state is compared with the snapshot taken just before the transaction existed. Every third case places pending entries with the same per-account log ids into the wallet's other account (the compared view covers every account); refusal cases include a transaction that is already mined but not yet seen by the wallet (with and without change output); every fourth case runs on coins that were restored by a scan.",
   "design_ref": "DESIGN.md section 5 C05",
   "note": "Directed enumeration of kinds/stages/addressing (hundreds of cases), parameters drawn per case.",
   "technique": "runtime monitoring: exact-rollback oracle (state snapshot before create vs after cancel) over enumerated pending-transaction kinds",
  },
  "C02": {
-  "text": "Runtime monitoring with a mutation campaign on the reply slate: every finalization that succeeds is judged by an independent exactness oracle (validation, recomputed inputs/change from the seed, agreed fee, stored-transaction bytes, acceptance by a real chain), every refusal by a frame condition and cancellability. Per shard also: cancel_tx followed by finalize_tx of the honest reply (with and without change output) must be refused or leave every input reserved. Thorough tier repeats the quick workload under AddressSanitizer (Rust and C code).",
+  "text": "Runtime monitoring with a mutation campaign on the reply slate: every finalization that succeeds is judged by an independent exactness oracle (validation, recomputed inputs/change from the seed, agreed fee, stored-transaction bytes, acceptance by a real chain), every refusal by a frame condition and cancellability. Per shard also: cancel_tx followed by finalize_tx of the honest reply (with and without change output) must be refused or leave every input reserved. Attacker-level replies include one that splits the recipient's output into two balanced outputs. Thorough tier repeats the quick workload under AddressSanitizer (Rust and C code).",
   "design_ref": "DESIGN.md section 5 C02",
   "note": "Alterations are a fixed catalogue plus attacker-level re-signed replies; the honest counterparty's outputs are taken from its real reply.",
   "technique": "runtime monitoring: 'success implies exact' oracle over finalizations of systematically altered replies, with a real chain as acceptance oracle; AddressSanitizer pass (thorough)",
@@ -86,13 +86,13 @@ META = {
   "technique": "runtime monitoring: soundness oracle over altered replies and altered exported proofs on real wallets and chain",
  },
  "C07": {
-  "text": "Runtime monitoring with a frame-condition oracle on the wallet's raw database content, files and spendable balance around every foreign call of generated hostile and honest sequences (direct calls and the JSON-RPC handler), several thousand calls per quick run.",
+  "text": "Runtime monitoring with a frame-condition oracle on the wallet's raw database content, files and spendable balance around every foreign call of generated hostile and honest sequences (direct calls and the JSON-RPC handler), several thousand calls per quick run. The victim's state holds pending sends of every kind (including a late-locked one, against which forged finalize calls are made) and honest receipts that were put into the reverted state before the same slate is delivered again.",
   "design_ref": "DESIGN.md section 5 C07",
   "note": "The oracle parses the stored JSON records; counters (log id, derivation index) are exempt.",
   "technique": "runtime monitoring: frame-condition oracle (complete LMDB dump diff) over sequences of honest and hostile foreign calls; AddressSanitizer pass (thorough)",
  },
  "C13": {
-  "text": "Runtime monitoring of the real owner listener handler with a client-side session model: every request is classified by the harness as authenticated-under-the-current-key or not, and an 'effect or data implies authenticated' oracle inspects the wallet database, files, lifecycle state and the reply; replies to authenticated requests must decrypt under the same key. Unauthenticated classes include plaintext batch arrays that hold the key-exchange call next to other calls.",
+  "text": "Runtime monitoring of the real owner listener handler with a client-side session model: every request is classified by the harness as authenticated-under-the-current-key or not, and an 'effect or data implies authenticated' oracle inspects the wallet database, files, lifecycle state and the reply; replies to authenticated requests must decrypt under the same key. Unauthenticated classes include plaintext batch arrays that hold the key-exchange call next to other calls; authenticated classes include an encrypted batch that contains a key exchange (afterwards both keys are probed: whichever is served must answer under the request's own key).",
   "design_ref": "DESIGN.md section 5 C13",
   "note": "The handler is driven in-process (no socket); AES-GCM envelopes are built by the harness with ring, independently of the wallet's EncryptedRequest type.",
   "technique": "runtime monitoring: session-model oracle ('effect implies authenticated') over generated request histories on the real handler",
@@ -116,7 +116,7 @@ META = {
   "technique": "runtime monitoring: hook-driven schedule enumeration with a serializability oracle; real-thread stress with per-flight postcondition, invariant and deadlock monitors; ThreadSanitizer pass (thorough)",
  },
  "C16": {
-  "text": "Runtime monitoring: restores and repairs are run on chains produced by generated wallet activity, with node paging varied, and judged against chain truth read directly from grin_chain (UTXO membership, value, height, coinbase flag, maturity, account, balances) plus idempotence of a second scan. Repairs are also judged after a broadcast transaction was cancelled by its sender and then mined, and after the top blocks were replaced by a longer fork (every account compared).",
+  "text": "Runtime monitoring: restores and repairs are run on chains produced by generated wallet activity, with node paging varied, and judged against chain truth read directly from grin_chain (UTXO membership, value, height, coinbase flag, maturity, account, balances) plus idempotence of a second scan. Repairs are also judged after a broadcast transaction was cancelled by its sender and then mined, and after the top blocks were replaced by a longer fork (every account compared). Odd scenarios use a third account and create an account in the fresh wallet before the restore scan (every discovered path must stay reachable under some label); partial scans must keep records below their range; histories include coinbases re-requested while another account is active; job c16m restores a new-seed wallet whose coinbases belong to a non-active account.",
   "design_ref": "DESIGN.md section 5 C16",
   "note": "Chain truth covers every commitment the harness ever observed for the seed during the history.",
   "technique": "runtime monitoring: chain-truth oracle over restore/repair scans on generated chain histories",
